@@ -493,12 +493,19 @@ def run_ops(ctx: Ctx, ops: List[dict]) -> None:
             rec["exc"] = type(e).__name__
             rec["ret"] = sim.gstep
             rec["ret_flips"] = len(w.flips)
-            if a is not None:
-                a.proc.exited = True
-                a.cur_op = None
-                sim.ops_done[a.name] += 1
-                sim.exit_process(a.proc)     # the interrupted process ends; kernel releases its locks
-            break
+            if getattr(ctx, "survive_interrupt", False) and isinstance(e, KeyboardInterrupt):
+                # the process SURVIVES the interrupt (REPL / notebook after Ctrl-C): it drops the handle it was using and
+                # goes on with its remaining operations through a new one
+                rec["survived"] = True
+                ctx._table = None
+                sim.probe("interrupt_survived")
+            else:
+                if a is not None:
+                    a.proc.exited = True
+                    a.cur_op = None
+                    sim.ops_done[a.name] += 1
+                    sim.exit_process(a.proc)     # the interrupted process ends; kernel releases its locks
+                break
         except BaseException as e:
             rec["outcome"] = "raise"
             rec["exc"] = type(e).__name__
